@@ -33,6 +33,8 @@ const (
 	kOpt
 	kTuple
 	kLog
+	kHash
+	kList
 	kUnknown
 )
 
@@ -56,6 +58,10 @@ func (t ty) coq() string {
 		return t.name
 	case kOpt:
 		return "(option " + t.sub[0].coq() + ")"
+	case kHash:
+		return "hash"
+	case kList:
+		return "(list " + t.sub[0].coq() + ")"
 	case kTuple:
 		var p []string
 		for _, s := range t.sub {
@@ -82,9 +88,42 @@ type target struct {
 	Structs []string // struct types to translate into records
 	Funcs   []string // functions / methods, in dependency order ("Recv.Method" or "func")
 	Ctx     string   // receiver type treated as a context: selector chains rooted at it become Section variables
+	// Hash: the file computes over common.Hash values: they become an abstract type `hash` with a binary function `hash2`
+	// (Keccak-256 of the concatenation) and a default element `hash0` (array reads); Section variables of the output
+	Hash bool
+	// StructsFrom: struct name -> file (relative to the repository root) for records declared in another file
+	StructsFrom map[string]string
+	// Consts: qualified Go constant -> file it is declared in (integer literals only)
+	Consts map[string]string
+	// Regions: translate only the first `for` statement of a function, as a function of the listed free variables
+	// (name, Coq type kind); the result is the tuple of the variables the loop assigns
+	Regions []region
 }
 
+type region struct {
+	Func   string
+	Name   string  // name of the generated definition
+	Params []param // free variables of the loop, in order
+}
+type param struct {
+	Name string
+	T    ty
+}
+
+var hashT = ty{k: kHash}
+
 var targets = []target{
+	{File: "tree/tree.go", Out: "GenTree.v", Module: "tree/tree.go (CalculateRoot) and tree/appendonlytree.go (hashing loop of AddLeaf)",
+		Hash: true, Structs: []string{"TreeNode"}, StructsFrom: map[string]string{"TreeNode": "tree/types/types.go"},
+		Consts: map[string]string{"types.DefaultHeight": "tree/types/types.go"},
+		Funcs:  []string{"CalculateRoot"}},
+	{File: "tree/appendonlytree.go", Out: "GenAppendOnlyTree.v", Module: "tree/appendonlytree.go (hashing loop of AddLeaf)",
+		Hash: true, Structs: []string{"TreeNode"}, StructsFrom: map[string]string{"TreeNode": "tree/types/types.go"},
+		Consts: map[string]string{"types.DefaultHeight": "tree/types/types.go"},
+		Regions: []region{{Func: "AppendOnlyTree.AddLeaf", Name: "AddLeaf_loop", Params: []param{
+			{"leaf_Index", ty{k: kInt}}, {"currentChildHash", hashT},
+			{"t_lastLeftCache", ty{k: kList, sub: []ty{hashT}}}, {"t_zeroHashes", ty{k: kList, sub: []ty{hashT}}},
+			{"newNodes", ty{k: kList, sub: []ty{{k: kStruct, name: "TreeNode"}}}}}}}},
 	{File: "aggsender/types/block_range.go", Out: "GenBlockRange.v", Module: "aggsender/types/block_range.go",
 		Structs: []string{"BlockRange"},
 		Funcs:   []string{"getBlockMinusOne", "BlockRange.CountBlocks", "BlockRange.IsEmpty", "BlockRange.Gap"}},
@@ -135,7 +174,15 @@ func goType(e ast.Expr, structs map[string]*structDef) ty {
 	case *ast.StarExpr:
 		inner := goType(v.X, structs)
 		return ty{k: kOpt, sub: []ty{inner}}
-	case *ast.SelectorExpr: // pkg.Type: an external struct, used flattened
+	case *ast.ArrayType:
+		return ty{k: kList, sub: []ty{goType(v.Elt, structs)}}
+	case *ast.SelectorExpr: // pkg.Type
+		if x, ok := v.X.(*ast.Ident); ok && x.Name == "common" && v.Sel.Name == "Hash" {
+			return ty{k: kHash}
+		}
+		if _, ok := structs[v.Sel.Name]; ok {
+			return ty{k: kStruct, name: v.Sel.Name}
+		}
 		return ty{k: kUnknown, name: v.Sel.Name}
 	}
 	return ty{k: kUnknown}
@@ -240,6 +287,17 @@ func (t *tr) expr(e ast.Expr, en *env) (string, ty) {
 			}
 			return name, vt
 		}
+		if ok {
+			name := strings.Join(chain, "_")
+			if vt, isVar := en.vars[name]; isVar && len(chain) > 1 { // flattened variable of a region (leaf.Index -> leaf_Index)
+				if _, shadow := en.vars[chain[0]]; !shadow {
+					return name, vt
+				}
+			}
+			if c, isConst := t.consts[strings.Join(chain, ".")]; isConst {
+				return c.code, c.t
+			}
+		}
 		if ok && len(chain) == 2 && en.flat[chain[0]] { // field of an external struct parameter
 			name := chain[0] + "_" + chain[1]
 			if vt, ok := en.vars[name]; ok {
@@ -259,6 +317,14 @@ func (t *tr) expr(e ast.Expr, en *env) (string, ty) {
 		}
 		t.fail(v, "selector .%s", v.Sel.Name)
 		return "?", ty{k: kUnknown}
+	case *ast.IndexExpr:
+		a, at := t.expr(v.X, en)
+		i, _ := t.expr(v.Index, en)
+		if at.k != kList {
+			t.fail(v, "index into a non-list")
+			return "?", ty{k: kUnknown}
+		}
+		return "(list_get " + zero(at.sub[0]) + " " + a + " " + i + ")", at.sub[0]
 	case *ast.UnaryExpr:
 		switch v.Op {
 		case token.NOT:
@@ -338,6 +404,8 @@ func zero(t ty) string {
 		return "false"
 	case kOpt:
 		return "None"
+	case kHash:
+		return "hash0"
 	}
 	return "?"
 }
@@ -391,6 +459,9 @@ func (t *tr) call(v *ast.CallExpr, en *env) (string, ty) {
 	// conversions
 	if id, ok := v.Fun.(*ast.Ident); ok && len(v.Args) == 1 {
 		switch id.Name {
+		case "uint8":
+			c, _ := t.expr(v.Args[0], en)
+			return "(" + c + " mod 256)", ty{k: kInt}
 		case "uint64", "uint":
 			c, ct := t.expr(v.Args[0], en)
 			if ct.k != kInt {
@@ -409,6 +480,46 @@ func (t *tr) call(v *ast.CallExpr, en *env) (string, ty) {
 				t.fail(v, "float64() of a non-integer")
 			}
 			return "(f64_of_N " + c + ")", ty{k: kFloat}
+		}
+	}
+	// intrinsics over the abstract hash type
+	if sel, ok := v.Fun.(*ast.SelectorExpr); ok && sel.Sel.Name == "Bytes" && len(v.Args) == 0 { // h.Bytes(): the same 32 bytes
+		if c, ct := t.expr(sel.X, en); ct.k == kHash {
+			return c, ct
+		}
+	}
+	if chain, ok := selChain(v.Fun); ok {
+		switch strings.Join(chain, ".") {
+		case "crypto.Keccak256Hash": // Keccak256Hash(a.Bytes(), b.Bytes()) = Keccak-256 of the concatenation
+			if len(v.Args) == 2 {
+				a, at := t.expr(v.Args[0], en)
+				b, bt := t.expr(v.Args[1], en)
+				if at.k == kHash && bt.k == kHash {
+					return "(hash2 " + a + " " + b + ")", ty{k: kHash}
+				}
+			}
+			t.fail(v, "crypto.Keccak256Hash of anything but two hashes")
+			return "?", ty{k: kUnknown}
+		case "newTreeNode": // tree.go: Keccak-256 of left ++ right, kept with its children
+			if _, ok := t.structs["TreeNode"]; ok && len(v.Args) == 2 {
+				l, _ := t.expr(v.Args[0], en)
+				r, _ := t.expr(v.Args[1], en)
+				return "(mkTreeNode (hash2 " + l + " " + r + ") " + l + " " + r + ")", ty{k: kStruct, name: "TreeNode"}
+			}
+		case "append":
+			if len(v.Args) == 2 {
+				a, at := t.expr(v.Args[0], en)
+				b, _ := t.expr(v.Args[1], en)
+				return "(" + a + " ++ [" + b + "])", at
+			}
+		}
+		if len(chain) >= 2 && chain[len(chain)-1] == "Bytes" && len(v.Args) == 0 { // h.Bytes(): the same 32 bytes
+			if sel, ok := v.Fun.(*ast.SelectorExpr); ok {
+				c, ct := t.expr(sel.X, en)
+				if ct.k == kHash {
+					return c, ct
+				}
+			}
 		}
 	}
 	var fname string
@@ -473,6 +584,14 @@ func (t *tr) binary(v *ast.BinaryExpr, en *env) (string, ty) {
 			return op2("u64_div", kInt)
 		case token.REM:
 			return op2("u64_mod", kInt)
+		case token.AND:
+			return op2("N.land", kInt)
+		case token.OR:
+			return op2("N.lor", kInt)
+		case token.SHL:
+			return op2("u64_shl", kInt)
+		case token.SHR:
+			return op2("N.shiftr", kInt)
 		case token.LSS:
 			return op2("N.ltb", kBool)
 		case token.LEQ:
@@ -588,8 +707,31 @@ func assigned(list []ast.Stmt, acc map[string]bool) {
 					if id, ok := x.X.(*ast.Ident); ok && !declared[id.Name] {
 						acc[id.Name] = true
 					}
+					if chain, ok := selChain(x); ok {
+						acc[strings.Join(chain, "_")] = true
+					}
+				case *ast.IndexExpr:
+					if chain, ok := selChain(x.X); ok && !declared[chain[0]] {
+						acc[strings.Join(chain, "_")] = true
+					}
 				}
 			}
+		case *ast.IncDecStmt:
+			if id, ok := v.X.(*ast.Ident); ok && !declared[id.Name] {
+				acc[id.Name] = true
+			}
+		case *ast.DeclStmt:
+			if gd, ok := v.Decl.(*ast.GenDecl); ok {
+				for _, sp := range gd.Specs {
+					if vs, ok := sp.(*ast.ValueSpec); ok {
+						for _, n := range vs.Names {
+							declared[n.Name] = true
+						}
+					}
+				}
+			}
+		case *ast.ForStmt:
+			assigned(v.Body.List, acc)
 		case *ast.IfStmt:
 			assigned(v.Body.List, acc)
 			if eb, ok := v.Else.(*ast.BlockStmt); ok {
@@ -613,6 +755,25 @@ func (t *tr) block(list []ast.Stmt, en *env, tail string, ind string) string {
 		return t.block(rest, en, tail, ind)
 	}
 	switch v := s.(type) {
+	case *ast.DeclStmt: // `var x T`: x is declared, every path assigns it before it is read
+		gd, ok := v.Decl.(*ast.GenDecl)
+		if !ok || gd.Tok != token.VAR {
+			t.fail(v, "declaration")
+			return "?"
+		}
+		for _, sp := range gd.Specs {
+			vs := sp.(*ast.ValueSpec)
+			if len(vs.Values) != 0 {
+				t.fail(v, "var declaration with an initial value")
+				return "?"
+			}
+			for _, n := range vs.Names {
+				en.vars[n.Name] = goType(vs.Type, t.structs)
+			}
+		}
+		return t.block(rest, en, tail, ind)
+	case *ast.ForStmt:
+		return t.forLoop(v, rest, en, tail, ind)
 	case *ast.ReturnStmt:
 		var parts []string
 		for _, r := range v.Results {
@@ -634,7 +795,22 @@ func (t *tr) block(list []ast.Stmt, en *env, tail string, ind string) string {
 			case *ast.Ident:
 				en.vars[l.Name] = ct
 				return "let " + l.Name + " := " + c + " in\n" + ind + t.block(rest, en, tail, ind)
+			case *ast.IndexExpr: // a[i] = e
+				chain, ok := selChain(l.X)
+				name := strings.Join(chain, "_")
+				if !ok || en.vars[name].k != kList {
+					t.fail(v, "assignment to an element of something that is not a list variable")
+					return "?"
+				}
+				i, _ := t.expr(l.Index, en)
+				return "let " + name + " := list_set " + name + " " + i + " " + c + " in\n" + ind + t.block(rest, en, tail, ind)
 			case *ast.SelectorExpr:
+				if chain, ok := selChain(l); ok {
+					if _, isVar := en.vars[strings.Join(chain, "_")]; isVar {
+						name := strings.Join(chain, "_")
+						return "let " + name + " := " + c + " in\n" + ind + t.block(rest, en, tail, ind)
+					}
+				}
 				id, ok := l.X.(*ast.Ident)
 				if !ok || en.vars[id.Name].k != kStruct {
 					t.fail(v, "assignment to a field of a non-record variable")
@@ -722,6 +898,51 @@ func (t *tr) block(list []ast.Stmt, en *env, tail string, ind string) string {
 	return "?"
 }
 
+// forLoop translates `for i := T(lo); i < hi; i++ { body }` (lo, hi constants) into a fold over lo .. hi-1 whose state is the tuple
+// of the variables the body assigns and that exist outside the loop.
+func (t *tr) forLoop(v *ast.ForStmt, rest []ast.Stmt, en *env, tail string, ind string) string {
+	init, ok1 := v.Init.(*ast.AssignStmt)
+	cond, ok2 := v.Cond.(*ast.BinaryExpr)
+	post, ok3 := v.Post.(*ast.IncDecStmt)
+	if !ok1 || !ok2 || !ok3 || init.Tok != token.DEFINE || len(init.Lhs) != 1 || cond.Op != token.LSS || post.Tok != token.INC {
+		t.fail(v, "for statement that is not `for i := lo; i < hi; i++`")
+		return "?"
+	}
+	iv := init.Lhs[0].(*ast.Ident).Name
+	if c, ok := cond.X.(*ast.Ident); !ok || c.Name != iv {
+		t.fail(v, "loop condition does not test the loop variable")
+		return "?"
+	}
+	lo, _ := t.expr(init.Rhs[0], en)
+	hi, _ := t.expr(cond.Y, en)
+	acc := map[string]bool{}
+	assigned(v.Body.List, acc)
+	var names []string
+	for n := range acc {
+		if _, ok := en.vars[n]; ok && n != iv {
+			names = append(names, n)
+		}
+	}
+	sort.Strings(names)
+	if len(names) == 0 {
+		t.fail(v, "loop without effect on the translated state")
+		return "?"
+	}
+	tup, pat := names[0], names[0]
+	if len(names) > 1 {
+		tup = "(" + strings.Join(names, ", ") + ")"
+		pat = "'" + tup
+	}
+	ben := en.clone()
+	ben.vars[iv] = ty{k: kInt}
+	body := t.block(v.Body.List, ben, tup, ind+"    ")
+	loop := "fold_left (fun " + pat + " " + iv + " =>\n" + ind + "    " + body + ")\n" + ind + "  (go_range " + lo + " " + hi + ") " + tup
+	if len(rest) == 0 && tail == tup {
+		return loop
+	}
+	return "let " + pat + " :=\n" + ind + "  " + loop + " in\n" + ind + t.block(rest, en, tail, ind)
+}
+
 // ---------------------------------------------------------------------------------------------
 // one target
 // ---------------------------------------------------------------------------------------------
@@ -734,7 +955,50 @@ var flatFields = map[string]map[string]ty{
 func (t *tr) run() string {
 	var o strings.Builder
 	o.WriteString("(* GENERATED by /verif/tools/go2coq from " + t.tg.Module + " on every check run. Do not edit. *)\n")
-	o.WriteString("From Coq Require Import ZArith NArith Bool.\nFrom Verif Require Import Base.GoNum.\nOpen Scope N_scope.\n\n")
+	o.WriteString("From Coq Require Import ZArith NArith Bool List.\nFrom Verif Require Import Base.GoNum.\nImport ListNotations.\nOpen Scope N_scope.\n\n")
+	if t.tg.Hash {
+		o.WriteString("Section Hash.\n(* common.Hash as an abstract type; hash2 a b = Keccak-256 of a ++ b (newTreeNode / crypto.Keccak256Hash); hash0 = the zero value *)\n")
+		o.WriteString("Variable hash : Type.\nVariable hash2 : hash -> hash -> hash.\nVariable hash0 : hash.\n\n")
+	}
+	// integer constants declared in other files
+	for q, file := range t.tg.Consts {
+		fs := token.NewFileSet()
+		cf, err := parser.ParseFile(fs, filepath.Join(repoRoot, file), nil, 0)
+		if err != nil {
+			t.fail(nil, "constant %s: %v", q, err)
+			continue
+		}
+		name := q[strings.LastIndex(q, ".")+1:]
+		found := false
+		for _, d := range cf.Decls {
+			gd, ok := d.(*ast.GenDecl)
+			if !ok || gd.Tok != token.CONST {
+				continue
+			}
+			for _, sp := range gd.Specs {
+				vs := sp.(*ast.ValueSpec)
+				for i, n := range vs.Names {
+					if n.Name != name || i >= len(vs.Values) {
+						continue
+					}
+					var lit ast.Expr = vs.Values[i]
+					if ce, ok := lit.(*ast.CallExpr); ok && len(ce.Args) == 1 { // uint8(32)
+						lit = ce.Args[0]
+					}
+					if bl, ok := lit.(*ast.BasicLit); ok && bl.Kind == token.INT {
+						t.consts[q] = struct {
+							code string
+							t    ty
+						}{bl.Value, ty{k: kInt}}
+						found = true
+					}
+				}
+			}
+		}
+		if !found {
+			t.fail(nil, "constant %s not found as an integer literal in %s", q, file)
+		}
+	}
 	// constants
 	for _, d := range t.file.Decls {
 		gd, ok := d.(*ast.GenDecl)
@@ -760,6 +1024,20 @@ func (t *tr) run() string {
 	// records
 	for _, name := range t.tg.Structs {
 		ts := t.typeSpec(name)
+		if file, ok := t.tg.StructsFrom[name]; ok {
+			fs := token.NewFileSet()
+			if sf, err := parser.ParseFile(fs, filepath.Join(repoRoot, file), nil, 0); err == nil {
+				for _, d := range sf.Decls {
+					if gd, ok := d.(*ast.GenDecl); ok {
+						for _, sp := range gd.Specs {
+							if x, ok := sp.(*ast.TypeSpec); ok && x.Name.Name == name {
+								ts = x
+							}
+						}
+					}
+				}
+			}
+		}
 		if ts == nil {
 			t.fail(nil, "struct %s not found", name)
 			continue
@@ -872,6 +1150,46 @@ func (t *tr) run() string {
 		}
 		defs = append(defs, fmt.Sprintf("(* %s *)\nDefinition %s %s%s :=\n  %s.\n", key, name, strings.Join(params, " "), retAnn, body))
 	}
+	for _, rg := range t.tg.Regions {
+		fd := t.funcs[rg.Func]
+		if fd == nil {
+			t.fail(nil, "function %s not found in %s", rg.Func, t.tg.File)
+			continue
+		}
+		var loop *ast.ForStmt
+		for _, st := range fd.Body.List {
+			if f, ok := st.(*ast.ForStmt); ok {
+				loop = f
+				break
+			}
+		}
+		if loop == nil {
+			t.fail(fd, "no for statement at the top level of %s", rg.Func)
+			continue
+		}
+		en := &env{vars: map[string]ty{}, flat: map[string]bool{}}
+		var params []string
+		for _, p := range rg.Params {
+			en.vars[p.Name] = p.T
+			params = append(params, fmt.Sprintf("(%s : %s)", p.Name, p.T.coq()))
+		}
+		acc := map[string]bool{}
+		assigned(loop.Body.List, acc)
+		var names []string
+		for n := range acc {
+			if _, ok := en.vars[n]; ok {
+				names = append(names, n)
+			}
+		}
+		sort.Strings(names)
+		tup := strings.Join(names, ", ")
+		if len(names) > 1 {
+			tup = "(" + tup + ")"
+		}
+		body := t.block([]ast.Stmt{loop}, en, tup, "  ")
+		defs = append(defs, fmt.Sprintf("(* the first for statement of %s, as a function of its free variables; result: %s *)\nDefinition %s %s :=\n  %s.\n",
+			rg.Func, tup, rg.Name, strings.Join(params, " "), body))
+	}
 	if t.tg.Ctx != "" {
 		fmt.Fprintf(&o, "Section %s.\n", t.tg.Ctx)
 		for _, n := range t.ctxOrder {
@@ -883,14 +1201,20 @@ func (t *tr) run() string {
 	if t.tg.Ctx != "" {
 		fmt.Fprintf(&o, "End %s.\n", t.tg.Ctx)
 	}
+	if t.tg.Hash {
+		o.WriteString("End Hash.\n")
+	}
 	return o.String()
 }
+
+var repoRoot = "/repo"
 
 func main() {
 	repo, outDir := "/repo", ""
 	if len(os.Args) > 1 {
 		repo = os.Args[1]
 	}
+	repoRoot = repo
 	if len(os.Args) > 2 {
 		outDir = os.Args[2]
 	}
